@@ -201,6 +201,12 @@ var (
 	rOpenStar = Rule{"ORD-OPENSTAR", rules.OrdOpenStar}
 	rSurr     = Rule{"TAB-SURROGATE", rules.TabSurrogate}
 	rAddr     = Rule{"NIL-ADDR", rules.NilAddr(rules.ScopeIon, 1)}
+	rScrOut   = Rule{"OWN-SCRATCHOUT", rules.OwnScratchOut}
+	rEOFOnly  = Rule{"ERR-EOFONLY", rules.ErrEOFOnly}
+	rReadVia  = Rule{"TAB-READVIA", rules.TabReadVia}
+	rBigFit   = Rule{"NUM-BIGFIT", rules.NumBigFit}
+	rPoolRst  = Rule{"ORD-POOLRESET", rules.OrdPoolReset}
+	rBigFresh = Rule{"OWN-BIGFRESH", rules.OwnBigFresh(rules.ScopeIon, 10)}
 	rFixedLST = Rule{"OWN-FIXEDLST", rules.OwnFixedLST}
 	rReflSet  = Rule{"TAB-REFLECTSET", rules.TabReflectSet}
 	rBounds   = Rule{"TAB-BOUNDS", rules.TabBounds}
@@ -237,10 +243,10 @@ var registry = map[string]*Property{
 		},
 	},
 	"C02": {
-		Decided:    "The text reader's finite tables equal the Ion 1.0 text tables: every escape with its code point and digit count, \\u and \\U refused inside clobs (TAB-ESCAPE, reader obligations); the 13 null.<type> names (TAB-NULLKW, reader obligations); every token the tokenizer can hand out at the start of a value has an arm in the reader's value dispatch (TAB-TOKEN, value arms); inside {{ }} no comment-skipping whitespace routine is reachable, so base64 text containing '//' or '/*' decodes (OWN-LOBWS); no comparison treats symbol ID 0 ($0) differently from the positive IDs (TAB-SID0); the timestamp parser separates second precision, nanosecond precision (up to nine digits) and rounding, and valid from invalid offsets, at the indices and values the grammar prescribes (TAB-BOUNDS, text timestamp obligations). Every function of the text tokenizer that recognises whitespace by comparing with ' ' and another whitespace character tests space, tab and line feed (TAB-WSSET); every caller of the comment-blind free function isStopChar looks for '/' itself (OWN-STOPCHAR). The code point of an escape in a string or symbol is never narrowed to a byte, and every function passes readEscapedChar the mode of the text kind it reads (TAB-ESCRUNE). String, long-string and quoted-symbol text is validated as UTF-8 (TAB-UTF8, text obligation). Next and ReadValue agree on where an operator or dot token's text starts (ORD-UNREAD); every scanner of an operator run stops in front of '//' and '/*' (TAB-OPCOMMENT); the '*' opening a block comment is consumed before the scan for '*/' (ORD-OPENSTAR); \\u surrogate pairs are combined (TAB-SURROGATE).",
+		Decided:    "The text reader's finite tables equal the Ion 1.0 text tables: every escape with its code point and digit count, \\u and \\U refused inside clobs (TAB-ESCAPE, reader obligations); the 13 null.<type> names (TAB-NULLKW, reader obligations); every token the tokenizer can hand out at the start of a value has an arm in the reader's value dispatch (TAB-TOKEN, value arms); inside {{ }} no comment-skipping whitespace routine is reachable, so base64 text containing '//' or '/*' decodes (OWN-LOBWS); no comparison treats symbol ID 0 ($0) differently from the positive IDs (TAB-SID0); the timestamp parser separates second precision, nanosecond precision (up to nine digits) and rounding, and valid from invalid offsets, at the indices and values the grammar prescribes (TAB-BOUNDS, text timestamp obligations). Every function of the text tokenizer that recognises whitespace by comparing with ' ' and another whitespace character tests space, tab and line feed (TAB-WSSET); every caller of the comment-blind free function isStopChar looks for '/' itself (OWN-STOPCHAR). The code point of an escape in a string or symbol is never narrowed to a byte, and every function passes readEscapedChar the mode of the text kind it reads (TAB-ESCRUNE). String, long-string and quoted-symbol text is validated as UTF-8 (TAB-UTF8, text obligation). Next and ReadValue agree on where an operator or dot token's text starts (ORD-UNREAD); every scanner of an operator run stops in front of '//' and '/*' (TAB-OPCOMMENT); the '*' opening a block comment is consumed before the scan for '*/' (ORD-OPENSTAR); \\u surrogate pairs are combined (TAB-SURROGATE). No byte buffer kept in a field of a reader or writer is handed out (OWN-SCRATCHOUT: zero such buffers today; the rule constrains any that is introduced). An unquoted top-level $ion_1_0 is recognised only as the whole symbol, after its annotations were looked for (ORD-TEXTIVM); the input is consumed only through complete-or-error primitives, so no spelling decodes differently when the source delivers it in other chunks (OWN-INPUT).",
 		Necessary:  "An escape decoded to another code point, a null.<type> name mapped to another type, or a value-start token without a dispatch arm makes a legal spelling decode to another value or to an error.",
 		NotDecided: "number, string-segmentation, comment/whitespace and timestamp grammar (behaviour of loops over characters); $n handling",
-		Technique:  tabTech + "; who-may-call check for the lob whitespace routines; spelling-insensitive boundary extraction for TAB-BOUNDS" + "; constant-set agreement of whitespace tests; who-may-call for isStopChar" + "; value-flow check of the escape rune and constant propagation of the escape mode through helper parameters" + "; presence of the UTF-8 validation on the text side" + "; sibling agreement of tokenizer exits per ReadValue arm (must-precede of unread); presence of the comment-start test in operator-run loops; must-precede of read() before the block-comment scan",
+		Technique:  tabTech + "; who-may-call check for the lob whitespace routines; spelling-insensitive boundary extraction for TAB-BOUNDS" + "; constant-set agreement of whitespace tests; who-may-call for isStopChar" + "; value-flow check of the escape rune and constant propagation of the escape mode through helper parameters" + "; presence of the UTF-8 validation on the text side" + "; sibling agreement of tokenizer exits per ReadValue arm (must-precede of unread); presence of the comment-start test in operator-run loops; must-precede of read() before the block-comment scan" + "; escape walk of slices derived from receiver buffer fields, through helpers, append-style callees and call sites",
 		DesignRef:  "DESIGN.md §3.4, §4 C02",
 		Rules: []Rule{
 			only(rEscape, 18, whatHas("reader:")), only(rNullKW, 13, whatHas("reader:")), only(rToken, 14, whatHas("value arm")), rLobWS, rSid0, only(rBounds, 6, funcHas("ParseTimestamp", "computeTimezoneKind", "isIonYear")),
@@ -248,13 +254,14 @@ var registry = map[string]*Property{
 			rEscRune,
 			only(rUTF8, 1, funcHas("tokenizer")),
 			rUnread, rOpCmt, rOpenStar, rSurr,
+			rScrOut, rTextIVM, rOwnInput,
 		},
 	},
 	"C03": {
-		Decided:    "The binary reader's type-code table, the value type stored for each type code and the accepted float sizes equal the Ion 1.0 tables (TAB-TYPECODE, reader obligations); validateAnnotatedValue special-cases exactly the type codes whose low nibble bitstream.Next does not read as a body length, so a wrapper around true/false or a sorted struct is measured correctly (TAB-NIBBLE); each field is decoded with the primitive Ion 1.0 prescribes (TAB-CODEC, reader obligations); the VarUInt/VarInt accumulators cannot drop high bits and every narrowing in the bitstream and binary reader is in range (NUM-SHIFT, NUM-NARROW, bitstream obligations); bytes handed to the caller never alias the read buffer (OWN-INPUT, Peek obligations); every value decoder consumes exactly the declared length of the current value (TAB-BUDGET); once Next has replaced the tag's nibble by a decoded length it no longer reads 14 and 15 as 'length follows' and 'null' (TAB-NIBBLE-NEXT); a decimal's negative-zero flag comes from the coefficient's sign bit (ORD-DECNEGZERO); no unsigned length or position subtraction in the bitstream can wrap below zero (NUM-USUB). The symbols list of a local symbol table yields one entry per element on every path round its loop (ORD-APPENDEACH); a struct is taken for a symbol table by its first annotation only (TAB-LSTFIRSTANN); leaving a value always passes clear() (ORD-BSCLEAR). A decoded length is compared with the space left after its own length field (TAB-OVERRUN); imports: $ion_symbol_table hands back nothing only when there is no current table (ORD-APPENDCARRY). The end of a container is reported only after looking whether a field name is pending (ORD-DANGLE-BIN); the bitstream keeps no value data in fields that clear() does not reset (OWN-BSSCRATCH).",
+		Decided:    "The binary reader's type-code table, the value type stored for each type code and the accepted float sizes equal the Ion 1.0 tables (TAB-TYPECODE, reader obligations); validateAnnotatedValue special-cases exactly the type codes whose low nibble bitstream.Next does not read as a body length, so a wrapper around true/false or a sorted struct is measured correctly (TAB-NIBBLE); each field is decoded with the primitive Ion 1.0 prescribes (TAB-CODEC, reader obligations); the VarUInt/VarInt accumulators cannot drop high bits and every narrowing in the bitstream and binary reader is in range (NUM-SHIFT, NUM-NARROW, bitstream obligations); bytes handed to the caller never alias the read buffer (OWN-INPUT, Peek obligations); every value decoder consumes exactly the declared length of the current value (TAB-BUDGET); once Next has replaced the tag's nibble by a decoded length it no longer reads 14 and 15 as 'length follows' and 'null' (TAB-NIBBLE-NEXT); a decimal's negative-zero flag comes from the coefficient's sign bit (ORD-DECNEGZERO); no unsigned length or position subtraction in the bitstream can wrap below zero (NUM-USUB). The symbols list of a local symbol table yields one entry per element on every path round its loop (ORD-APPENDEACH); a struct is taken for a symbol table by its first annotation only (TAB-LSTFIRSTANN); leaving a value always passes clear() (ORD-BSCLEAR). A decoded length is compared with the space left after its own length field (TAB-OVERRUN); imports: $ion_symbol_table hands back nothing only when there is no current table (ORD-APPENDCARRY). The end of a container is reported only after looking whether a field name is pending (ORD-DANGLE-BIN); the bitstream keeps no value data in fields that clear() does not reset (OWN-BSSCRATCH). No byte buffer kept in a field of a reader or writer is handed out (OWN-SCRATCHOUT: zero such buffers today; the rule constrains any that is introduced). The calendar-field and symbol-ID width limits of the binary reader sit where the format puts them (TAB-BOUNDS, binary reader rows). The binary reader stores no scalar made up from a constant: every scalar comes out of the bitstream's Read* method, where negative zero and truncated bodies are rejected (TAB-READVIA).",
 		Necessary:  "A type code decoded as another type, a refused float size, or a wrapper length check that misreads a bool's nibble (finding F13, fixed) rejects or misdecodes a valid encoding.",
 		NotDecided: "VarUInt/VarInt arithmetic, padding, NOP handling, struct ordering, lengths (behavioural); TAB-BUDGET of the design was not built",
-		Technique:  tabTech + "; " + "codec-family pairing (length function vs append function per operand, by SSA path) and codec tables compared with Ion 1.0" + "; " + numTech + "; escape walk of bufio.Reader.Peek results" + "; must-pass-through (append per loop iteration; clear() after a state store)" + "; edge-condition check of the exits of the append case" + "; field-write census of the bitstream against clear()",
+		Technique:  tabTech + "; " + "codec-family pairing (length function vs append function per operand, by SSA path) and codec tables compared with Ion 1.0" + "; " + numTech + "; escape walk of bufio.Reader.Peek results" + "; must-pass-through (append per loop iteration; clear() after a state store)" + "; edge-condition check of the exits of the append case" + "; field-write census of the bitstream against clear()" + "; escape walk of slices derived from receiver buffer fields, through helpers, append-style callees and call sites" + "; value-origin check of the binary reader's value stores",
 		DesignRef:  "DESIGN.md §3.4, §4 C03",
 		Rules: []Rule{
 			only(rTypecode, 30, whatLacks("binaryNulls[")), rNibble,
@@ -263,28 +270,31 @@ var registry = map[string]*Property{
 			rAppEach, rLSTAnn, rBSClear,
 			rOverrun, rAppCarry,
 			rDangleB, rBSScr,
+			rScrOut, only(rBounds, 2, funcHas("ReadTimestamp", "ReadSymbolID")),
+			rReadVia,
 		},
 	},
 	"C04": {
-		Decided:    "Binary typed-null bytes written equal the Ion 1.0 table (TAB-TYPECODE, writer obligations); text typed-null spellings are the 13 Ion type names (TAB-NULLKW, writer obligations); every single-letter escape the text writer spells denotes the written byte in the Ion 1.0 escape table, and the needs-escaping tests of strings, symbols and clobs cover delimiter, backslash, control characters and non-ASCII for clobs (TAB-ESCAPE, writer-vs-spec and predicate obligations); keywords are quoted when written as symbols (TAB-KEYWORD); every opened value/container/annotation wrapper is closed on each success path (ORD-VALUE); version marker before symbol table before values, fixed table before the first value (ORD-LSTFIRST); every declared length is computed with the codec and operand the payload is appended with, across the xLen/appendX and Len/EmitTo sibling pairs too (TAB-LENPAY); each field uses the codec Ion 1.0 prescribes (TAB-CODEC, writer obligations); no value is narrowed out of range on its way into the encoders, in particular no negative symbol ID (NUM-NARROW, writer files); IDs written come from this writer's table by text (OWN-TEXTAUTH, writer obligations). A flag bit ORed onto a VarUInt/VarInt octet never overlaps the payload (NUM-FLAGOR); a float is classified as zero only together with its sign bit (NUM-ZEROSIGN); negative zero's sign is never taken from the coefficient (ORD-DECSIGN); the text writer forgets an owed separator only on a path that writes to the output (ORD-SEPSTATE). No element count (len of anything but bytes) is handed to a length encoder of the binary writer (TAB-LENCOUNT).",
+		Decided:    "Binary typed-null bytes written equal the Ion 1.0 table (TAB-TYPECODE, writer obligations); text typed-null spellings are the 13 Ion type names (TAB-NULLKW, writer obligations); every single-letter escape the text writer spells denotes the written byte in the Ion 1.0 escape table, and the needs-escaping tests of strings, symbols and clobs cover delimiter, backslash, control characters and non-ASCII for clobs (TAB-ESCAPE, writer-vs-spec and predicate obligations); keywords are quoted when written as symbols (TAB-KEYWORD); every opened value/container/annotation wrapper is closed on each success path (ORD-VALUE); version marker before symbol table before values, fixed table before the first value (ORD-LSTFIRST); every declared length is computed with the codec and operand the payload is appended with, across the xLen/appendX and Len/EmitTo sibling pairs too (TAB-LENPAY); each field uses the codec Ion 1.0 prescribes (TAB-CODEC, writer obligations); no value is narrowed out of range on its way into the encoders, in particular no negative symbol ID (NUM-NARROW, writer files); IDs written come from this writer's table by text (OWN-TEXTAUTH, writer obligations). A flag bit ORed onto a VarUInt/VarInt octet never overlaps the payload (NUM-FLAGOR); a float is classified as zero only together with its sign bit (NUM-ZEROSIGN); negative zero's sign is never taken from the coefficient (ORD-DECSIGN); the text writer forgets an owed separator only on a path that writes to the output (ORD-SEPSTATE). No element count (len of anything but bytes) is handed to a length encoder of the binary writer (TAB-LENCOUNT). No byte buffer kept in a field of a reader or writer is handed out (OWN-SCRATCHOUT: zero such buffers today; the rule constrains any that is introduced).",
 		Necessary:  "Each clause is checked against the specification embedded in the checker, not against this repository's reader: a wrong null byte or name, a raw delimiter, an unquoted keyword, an unclosed wrapper (declared length never patched) or a table after its values is ill-formed or denotes another value under any conforming decoder.",
 		NotDecided: "each codec's own length function (len(appendX(v)) = xLen(v) is arithmetic), separators and number formatting of the text writer",
-		Technique:  tabTech + "; CFG/SSA pairing for ORD; " + "codec-family pairing (length function vs append function per operand, by SSA path) and codec tables compared with Ion 1.0" + "; " + numTech + "; interval check of flag/payload bit overlap; must-pass-through of an output write around separator-state resets" + "; type check of len() operands reaching length encoders",
+		Technique:  tabTech + "; CFG/SSA pairing for ORD; " + "codec-family pairing (length function vs append function per operand, by SSA path) and codec tables compared with Ion 1.0" + "; " + numTech + "; interval check of flag/payload bit overlap; must-pass-through of an output write around separator-state resets" + "; type check of len() operands reaching length encoders" + "; escape walk of slices derived from receiver buffer fields, through helpers, append-style callees and call sites",
 		DesignRef:  "DESIGN.md §3.4, §3.5, §4 C04",
 		Rules: []Rule{
 			only(rTypecode, 13, whatHas("binaryNulls[")), only(rNullKW, 13, whatHas("writer:")), only(rEscape, 20, whatHas("escapes when", "writer-vs-spec:")), rKeyword, rOrdValue, rOrdLstFirst,
 			rLenPay, only(rCodec, 25, whatLacks("decode")), only(rNarrow, 30, posHas("ion/binarywriter.go", "ion/bits.go", "ion/buf.go")), only(rTextAuth, 2, posHas("ion/binarywriter.go")),
 			rFlagOr, rZeroSign, rDecSign, rSepState,
 			rLenCount,
+			rScrOut,
 		},
 	},
 	"C05": {
-		Decided:    "A symbol token's text is authoritative wherever a token is turned into bytes: (i) text taken from a SymbolToken is never handed to a parameter that is interpreted as a '$n' symbol-ID reference (symbolIdentifier with its ID result used, binaryWriter.resolve, Writer.WriteSymbolFromString, newSymbolToken — the set is computed from the call graph), in package ion and in the command's copy loop; (ii) in the binary writer a token's LocalSID becomes the ID to write only on the edge where its Text is nil, at the one place (resolveToken) all three uses — value, field name, annotation — go through; (iii) the text reader applies the '$n' interpretation only to unquoted identifier tokens (OWN-TEXTAUTH); no comparison of a LocalSID treats $0 differently from the positive IDs, so a symbol without text is copied like any other (TAB-SID0); no Reader field keeps a resolved token beyond the symbol table it was resolved in (OWN-TOKCACHE). Text taken from a SymbolToken reaches a raw output call of the text writer only in a function that asks symbolIdentifier about it, so $n-shaped annotations, field names and values are quoted alike (OWN-SYMQUOTE).",
+		Decided:    "A symbol token's text is authoritative wherever a token is turned into bytes: (i) text taken from a SymbolToken is never handed to a parameter that is interpreted as a '$n' symbol-ID reference (symbolIdentifier with its ID result used, binaryWriter.resolve, Writer.WriteSymbolFromString, newSymbolToken — the set is computed from the call graph), in package ion and in the command's copy loop; (ii) in the binary writer a token's LocalSID becomes the ID to write only on the edge where its Text is nil, at the one place (resolveToken) all three uses — value, field name, annotation — go through; (iii) the text reader applies the '$n' interpretation only to unquoted identifier tokens (OWN-TEXTAUTH); no comparison of a LocalSID treats $0 differently from the positive IDs, so a symbol without text is copied like any other (TAB-SID0); no Reader field keeps a resolved token beyond the symbol table it was resolved in (OWN-TOKCACHE). Text taken from a SymbolToken reaches a raw output call of the text writer only in a function that asks symbolIdentifier about it, so $n-shaped annotations, field names and values are quoted alike (OWN-SYMQUOTE). A binary writer keeps no symbol-ID cache that outlives the table it was computed against (OWN-WRCACHE); an appending local symbol table carries over the imports and symbols of the table it extends (ORD-APPENDCARRY).",
 		Necessary:  "The Reader attaches the source table's SID to every token. A writer that prefers LocalSID over text emits IDs of a table the output never declares (F6), and one that passes token text through the '$n' interpretation writes the symbol '$5' as symbol 5 (F5); both change the copied document whenever source and destination tables differ. Both were genuine defects on the pinned tree and were repaired (fix: f27bc41, 36b2787).",
 		NotDecided: "equivalence of whole documents across formats; that every reader accessor result is forwarded by the copy loop; the text writer's spelling of tokens without text ($n)",
-		Technique:  "call-graph fixed point for '$n'-interpreting parameters + SSA value-flow from SymbolToken.Text loads to call arguments; branch-fact dominance (Text == nil) at LocalSID uses; enum value-set dataflow of the token kind at newSymbolToken calls" + "; forward def-use closure from loads of SymbolToken.Text to raw output calls",
+		Technique:  "call-graph fixed point for '$n'-interpreting parameters + SSA value-flow from SymbolToken.Text loads to call arguments; branch-fact dominance (Text == nil) at LocalSID uses; enum value-set dataflow of the token kind at newSymbolToken calls" + "; forward def-use closure from loads of SymbolToken.Text to raw output calls" + "; field census of the binary writer for ID caches; must-carry check of the append case",
 		DesignRef:  "DESIGN.md §3.6 OWN-TEXTAUTH, §4 C05, §0.7",
-		Rules:      []Rule{rTextAuth, rSid0, rTokCache, rSymQuote},
+		Rules:      []Rule{rTextAuth, rSid0, rTokCache, rSymQuote, rWrCache, rAppCarry},
 	},
 	"C06": {
 		Decided:    "In package ion: a pointer obtained from an accessor that returns (nil, nil) for a typed null is dereferenced only where it is known non-nil, with preconditions inferred through helper calls (NIL-ACC); such a pointer is not passed to a callee that dereferences it unguarded (NIL-ARG); the pointer fields documented nil-if-unknown (SymbolToken.Text/Source, ImportSource) are dereferenced only under a nil test of the same access path (NIL-FIELD); every panicking pop on the reader-side stacks is dominated by a non-emptiness fact (ORD-POPGUARD, reader obligations); on the input side every allocation with a non-constant size is sized by the length of data already in memory or by a value bounded by 2^20 — a declared length never sizes an allocation before the bytes exist (NUM-ALLOC, 2 residual rows); every index into a slice, string or array on the input side (240 sites) is inside the bounds by the loop that produces it, by a dominating comparison with the length of the same object, by the callee's length contract (Peek(n), readN(n)) or by what every call site establishes (NUM-INDEX, 7 residual rows); the same for the bounds of slice expressions in the reader, symbol-table, unmarshal and timestamp files (NUM-SLICE, 3 residual rows); every call on the input side to a module function that panics when an integer expression over its parameters leaves a range (Decimal.ShiftL/upscale ...) establishes that range at the call (OWN-PANICAPI); no subtraction of unsigned lengths, positions or budgets in the reader files can wrap below zero — the operands are ordered by their intervals, by a dominating comparison, or by the contract that a budgeted reader never consumes more than its budget (NUM-USUB, 2 residual rows). Where bitstream.Next compares a length decoded from a separate VarUInt with the space left, that space has been reduced by the size of the length field (TAB-OVERRUN).",
@@ -300,10 +310,10 @@ var registry = map[string]*Property{
 		},
 	},
 	"C07": {
-		Decided:    "The Reader error state is absorbing and every effect of a Reader method happens after 'no error yet' was established (ERR-ABSORB-R); an error obtained from the input layer is made sticky before it is returned (ERR-STICKY-R); end of input inside an open binary container is never a nil-error return (ORD-EOFDEPTH); the text reader ends a sequence in the value position only when no annotations are pending (ORD-DANGLE); a negative integer with a zero magnitude is rejected whichever representation the magnitude was decoded into (ORD-NEGZERO); in the reader files no error is discarded (ERR-DROP) and no path from a non-nil error test reaches an exit without consuming the error or returning a definitely non-nil one (ERR-SWAP). Clob-reading functions read escapes in clob mode, so \\u and \\U are refused there (TAB-ESCRUNE, mode obligations). The bitstream reports the end of a container only after looking whether a field name is pending (ORD-DANGLE-BIN); both readers validate string text as UTF-8 (TAB-UTF8). An unterminated '/*/' is not taken for a complete comment (ORD-OPENSTAR).",
+		Decided:    "The Reader error state is absorbing and every effect of a Reader method happens after 'no error yet' was established (ERR-ABSORB-R); an error obtained from the input layer is made sticky before it is returned (ERR-STICKY-R); end of input inside an open binary container is never a nil-error return (ORD-EOFDEPTH); the text reader ends a sequence in the value position only when no annotations are pending (ORD-DANGLE); a negative integer with a zero magnitude is rejected whichever representation the magnitude was decoded into (ORD-NEGZERO); in the reader files no error is discarded (ERR-DROP) and no path from a non-nil error test reaches an exit without consuming the error or returning a definitely non-nil one (ERR-SWAP). Clob-reading functions read escapes in clob mode, so \\u and \\U are refused there (TAB-ESCRUNE, mode obligations). The bitstream reports the end of a container only after looking whether a field name is pending (ORD-DANGLE-BIN); both readers validate string text as UTF-8 (TAB-UTF8). An unterminated '/*/' is not taken for a complete comment (ORD-OPENSTAR). The end-of-input sentinel -1 is returned with a nil error only on the edge where the source's error is io.EOF (ERR-EOFONLY). The binary reader stores no scalar made up from a constant: every scalar comes out of the bitstream's Read* method, where negative zero and truncated bodies are rejected (TAB-READVIA).",
 		Necessary:  "A Next that continues after an error, an input-layer error that never reaches Err(), a truncated container read as complete (F14, fixed), 'a::' accepted (F15, fixed) or a dropped tokenizer/bitstream error each let malformed input finish with Err()==nil or let Next resume.",
 		NotDecided: "that each grammar violation in the property's catalogue is detected by some check in the tokenizer or bitstream",
-		Technique:  ssaTech + "; phi-edge inspection of the negative-zero flag" + "; constant propagation of the escape mode through helper parameters" + "; path search from the end-of-container test to the EOF store; sibling check of the UTF-8 validation" + "; must-precede of read() before the block-comment scan",
+		Technique:  ssaTech + "; phi-edge inspection of the negative-zero flag" + "; constant propagation of the escape mode through helper parameters" + "; path search from the end-of-container test to the EOF store; sibling check of the UTF-8 validation" + "; must-precede of read() before the block-comment scan" + "; branch-fact check of the sentinel exits; value-origin check of the binary reader's value stores",
 		DesignRef:  "DESIGN.md §3.1, §3.5, §4 C07",
 		Rules: []Rule{
 			rAbsorbR, rStickyR, rOrdEOFDepth, rOrdDangle, rNegZero,
@@ -311,15 +321,16 @@ var registry = map[string]*Property{
 			only(rEscRune, 3, whatHas("escape mode")),
 			rDangleB, rUTF8,
 			rOpenStar,
+			rEOFOnly, rReadVia,
 		},
 	},
 	"C08": {
-		Decided:    "Every Reader method exit that refuses a call (returns a fresh *UsageError) is free of side effects on the reader (REFUSE-PURE); every token the tokenizer hands out as an unfinished value has a skip arm (TAB-TOKEN, skip arms); StepIn enters a nesting level only for a non-null container in both implementations (ORD-STEPIN); none of the lob readers and skippers reaches the comment-skipping whitespace routine, so skip and read agree that '/' inside {{ }} is data (OWN-LOBWS); in binary, reading a value and skipping it hand the same declared length to the primitive readers, so both end at the same byte (TAB-BUDGET). Every bitstream method that leaves a value passes clear() on each path to a successful exit (ORD-BSCLEAR); the text reader's raw scan for a container's end starts only when the tokenizer has no unfinished value (ORD-TOKFINISH). The bitstream keeps no value data in fields that clear() does not reset, so what a value decodes to does not depend on which values were decoded before (OWN-BSSCRATCH). The operator readers and the whitespace/comment skipper used when a container is skipped agree on where an operator ends (TAB-OPCOMMENT).",
+		Decided:    "Every Reader method exit that refuses a call (returns a fresh *UsageError) is free of side effects on the reader (REFUSE-PURE); every token the tokenizer hands out as an unfinished value has a skip arm (TAB-TOKEN, skip arms); StepIn enters a nesting level only for a non-null container in both implementations (ORD-STEPIN); none of the lob readers and skippers reaches the comment-skipping whitespace routine, so skip and read agree that '/' inside {{ }} is data (OWN-LOBWS); in binary, reading a value and skipping it hand the same declared length to the primitive readers, so both end at the same byte (TAB-BUDGET). Every bitstream method that leaves a value passes clear() on each path to a successful exit (ORD-BSCLEAR); the text reader's raw scan for a container's end starts only when the tokenizer has no unfinished value (ORD-TOKFINISH). The bitstream keeps no value data in fields that clear() does not reset, so what a value decodes to does not depend on which values were decoded before (OWN-BSSCRATCH). The operator readers and the whitespace/comment skipper used when a container is skipped agree on where an operator ends (TAB-OPCOMMENT). No byte buffer kept in a field of a reader or writer is handed out (OWN-SCRATCHOUT: zero such buffers today; the rule constrains any that is introduced).",
 		Necessary:  "A refused StepIn/StepOut/accessor that changes cursor state, or a value kind that cannot be skipped, makes later results depend on the navigation.",
 		NotDecided: "agreement of skip and read on where an arbitrary value ends (finding F17, clob text containing '}', was repaired but no rule would detect its return)",
-		Technique:  ssaTech + "; " + tabTech + "; enum value-set and nil-fact dominance at nesting-level pushes; who-may-call check for the lob whitespace routines" + "; must-pass-through of clear() after state stores; typestate of the tokenizer's unfinished flag (finisher summaries by fixed point) before a raw scan" + "; field-write census of the bitstream against clear()" + "; presence of the comment-start test in operator-run loops",
+		Technique:  ssaTech + "; " + tabTech + "; enum value-set and nil-fact dominance at nesting-level pushes; who-may-call check for the lob whitespace routines" + "; must-pass-through of clear() after state stores; typestate of the tokenizer's unfinished flag (finisher summaries by fixed point) before a raw scan" + "; field-write census of the bitstream against clear()" + "; presence of the comment-start test in operator-run loops" + "; escape walk of slices derived from receiver buffer fields, through helpers, append-style callees and call sites",
 		DesignRef:  "DESIGN.md §3.1, §3.4, §4 C08",
-		Rules:      []Rule{rRefuse, only(rToken, 13, whatHas("skip arm")), rStepIn, rLobWS, rBudget, rBSClear, rTokFin, rBSScr, rOpCmt},
+		Rules:      []Rule{rRefuse, only(rToken, 13, whatHas("skip arm")), rStepIn, rLobWS, rBudget, rBSClear, rTokFin, rBSScr, rOpCmt, rScrOut},
 	},
 	"C09": {
 		Decided:    "Every insertion into a symbol text index (buildIndex, symbolTableBuilder.Add, Build) happens only when the text is not present yet, with imports consulted before locals, or copies an existing index (ORD-FIRSTWINS); NewSymbolTokenBySID looks an ID up only after 0 <= sid <= MaxID() was established and rejects everything else (ORD-SIDBOUND); a local table resolves text through its imports before its own index on every path (ORD-IMPORTFIRST); Build neither writes to the builder nor hands the builder's own symbols/index storage to the built table (OWN-BUILD); every table object is built with an index that describes exactly the symbols it holds (TAB-INDEXPAIR). Every table sst.Adjust(n) returns has max_id n: a new table stores the parameter, the receiver is returned only under maxID == s.maxID (TAB-ADJUSTMAX).",
@@ -359,31 +370,32 @@ var registry = map[string]*Property{
 		},
 	},
 	"C13": {
-		Decided:     "On the numeric data path of package ion (every file that carries a number, length, symbol ID, exponent or calendar field between the API and the bytes): every integer conversion that can lose value bits or the sign has an operand interval inside the target type, or is the sign-magnitude idiom, or hands its result only to a callee that rejects the wrapped values, or is one of 5 residual rows with a reason (NUM-NARROW); every left shift keeps all value bits — in particular the 7-bits-per-byte VarUInt/VarInt accumulators are checked before each shift (NUM-SHIFT, 2 residual rows: fixed-width loops); every big.Int.Int64()/Uint64() is dominated by IsInt64()/IsUint64() on the same unmodified receiver (NUM-BIG); every float64→float32 narrowing is the losslessness test or dominated by it (NUM-F32); ints and symbol IDs are written as, and read from, the unsigned-magnitude codec Ion 1.0 prescribes — never the sign-magnitude Int subfield decoder (TAB-CODEC, int and symbol obligations); IntSize and IntValue draw the int32 boundary at exactly 2^31 and -2^31-1 (TAB-BOUNDS, accessor obligations). Under each case of a switch over IntSize() the accessor reached is wide enough for that case (TAB-INTSIZE); no typed accessor answers successfully before the value's type was read (TAB-ACCTYPE).",
+		Decided:     "On the numeric data path of package ion (every file that carries a number, length, symbol ID, exponent or calendar field between the API and the bytes): every integer conversion that can lose value bits or the sign has an operand interval inside the target type, or is the sign-magnitude idiom, or hands its result only to a callee that rejects the wrapped values, or is one of 5 residual rows with a reason (NUM-NARROW); every left shift keeps all value bits — in particular the 7-bits-per-byte VarUInt/VarInt accumulators are checked before each shift (NUM-SHIFT, 2 residual rows: fixed-width loops); every big.Int.Int64()/Uint64() is dominated by IsInt64()/IsUint64() on the same unmodified receiver (NUM-BIG); every float64→float32 narrowing is the losslessness test or dominated by it (NUM-F32); ints and symbol IDs are written as, and read from, the unsigned-magnitude codec Ion 1.0 prescribes — never the sign-magnitude Int subfield decoder (TAB-CODEC, int and symbol obligations); IntSize and IntValue draw the int32 boundary at exactly 2^31 and -2^31-1 (TAB-BOUNDS, accessor obligations). Under each case of a switch over IntSize() the accessor reached is wide enough for that case (TAB-INTSIZE); no typed accessor answers successfully before the value's type was read (TAB-ACCTYPE). The length a binary value announces is computed from the same operands, with the same width functions, as the bytes written after it (TAB-LENPAY). Int64Value refuses a *big.Int only after asking it whether it fits (NUM-BIGFIT).",
 		Necessary:   "Each rule instance is a place where Go silently wraps, truncates or rounds: uint64(negative SID) (F25, fixed), int(VarUInt >= 2^63) as a year (fixed), a 10-byte VarUInt losing its top bits (fixed), Int64() of a 70-bit coefficient (F19, fixed), float32(x) without the equality test. An unchecked instance on the data path is a number that changes without an error.",
 		NotDecided:  "the arithmetic inside each codec loop (bytes assembled in the right order), typed-null/usage-error behaviour of accessors (NIL-ACC under C06 covers the nil dereference side only); trip counts of the two fixed-width loops in ReadInt/ReadSymbolID (residual rows)",
-		Technique:   numTech + "; enum value-set dataflow of IntSize() against accessor width; path search for a type read before successful exits of accessors",
+		Technique:   numTech + "; enum value-set dataflow of IntSize() against accessor width; path search for a type read before successful exits of accessors" + "; sibling agreement of length functions and append functions" + "; presence of a deciding magnitude test before the too-large exit",
 		DesignRef:   "DESIGN.md §3.3, §4 C13, §0.7",
 		Assumptions: []string{"int is 64 bits (linux/amd64, the analysed configuration)", "len/cap of a string or slice is at most 2^48 (runtime.maxAlloc on 64-bit platforms)", "documented result ranges of time.Time accessors, strconv.ParseInt(_, _, N), io.ReadFull, bufio.Reader.Discard, math/big.Int.BitLen"},
-		Rules:       []Rule{rNarrow, rShift, rBig, rF32, only(rCodec, 12, funcHas("ReadInt", "ReadSymbolID", "WriteInt", "WriteUint", "WriteSymbol", "writeSymbolFromID")), only(rBounds, 5, funcHas("IntValue", "IntSize", "ReadSymbolID")), rIntSize, rAccType},
+		Rules:       []Rule{rNarrow, rShift, rBig, rF32, only(rCodec, 12, funcHas("ReadInt", "ReadSymbolID", "WriteInt", "WriteUint", "WriteSymbol", "writeSymbolFromID")), only(rBounds, 5, funcHas("IntValue", "IntSize", "ReadSymbolID")), rIntSize, rAccType, rLenPay, rBigFit},
 	},
 	"C14": {
-		Decided:    "Exponent arithmetic never wraps silently where this can be decided: every +, -, * and unary minus carried out in a type narrower than 64 bits (the decimal scale is an int32) has a result interval inside the type (NUM-EXP32) — Mul, ShiftL, ShiftR and ParseDecimal widen to int64, check the range and narrow; every narrowing in decimal.go has an in-range operand (NUM-NARROW, decimal.go obligations); no floating-point value takes part in Add, Sub, Mul, Neg, Abs, ShiftL, ShiftR, Cmp, Equal, Sign, Truncate, String, CoEx, ParseDecimal, NewDecimal or anything they call in the module (NUM-NOFLOAT). No function that distinguishes negative zero decides a Decimal's sign from an order test of its coefficient where the flag may be set (ORD-DECSIGN); every big.Int division in decimal.go is the truncating kind or has an Abs dividend (NUM-BIGDIV).",
+		Decided:    "Exponent arithmetic never wraps silently where this can be decided: every +, -, * and unary minus carried out in a type narrower than 64 bits (the decimal scale is an int32) has a result interval inside the type (NUM-EXP32) — Mul, ShiftL, ShiftR and ParseDecimal widen to int64, check the range and narrow; every narrowing in decimal.go has an in-range operand (NUM-NARROW, decimal.go obligations); no floating-point value takes part in Add, Sub, Mul, Neg, Abs, ShiftL, ShiftR, Cmp, Equal, Sign, Truncate, String, CoEx, ParseDecimal, NewDecimal or anything they call in the module (NUM-NOFLOAT). No function that distinguishes negative zero decides a Decimal's sign from an order test of its coefficient where the flag may be set (ORD-DECSIGN); every big.Int division in decimal.go is the truncating kind or has an Abs dividend (NUM-BIGDIV). Every big.Int method that writes its receiver is called on a big.Int allocated in the same function, so no operation changes an operand or a value handed out earlier (OWN-BIGFRESH).",
 		Necessary:  "'0.1d-2147483648' parsed as 1d2147483647 because the fraction digits were subtracted from the exponent in int32 (F20, fixed: bbed24c). A float in an exact operation rounds. The four negations of the int32 scale (NewDecimal, CoEx, String x2) are a genuine, recorded defect at exponent -2^31 (known finding F20b: the value cannot be represented because the struct stores -exponent in an int32; ShiftL(1) on it panics).",
 		NotDecided: "algebraic exactness of the big.Int arithmetic after rescaling, the three text layouts of String, Truncate's digit arithmetic, negative-zero propagation — arithmetic over unbounded runtime values; this is the weakest claim of the set",
-		Technique:  numTech + "; call-graph closure for NUM-NOFLOAT" + "; branch-fact dataflow on isNegZero at coefficient sign tests; callee classification of big.Int division",
+		Technique:  numTech + "; call-graph closure for NUM-NOFLOAT" + "; branch-fact dataflow on isNegZero at coefficient sign tests; callee classification of big.Int division" + "; freshness check of the receivers of mutating big.Int methods",
 		DesignRef:  "DESIGN.md §3.3, §4 C14, §0.7",
-		Rules:      []Rule{rExp32, rNoFloat, only(rNarrow, 5, posHas("ion/decimal.go")), rDecSign, rBigDiv},
+		Rules:      []Rule{rExp32, rNoFloat, only(rNarrow, 5, posHas("ion/decimal.go")), rDecSign, rBigDiv, only(rBigFresh, 8, posHas("ion/decimal.go"))},
 	},
 	"C15": {
-		Decided:    "Calendar validation compares every field it hands to time.Date (which normalises month 13, day 32, hour 24, minute/second 60 instead of rejecting them) with the matching accessor of the result before every success exit, and the time value each decoded timestamp is built from has 1 <= Year() <= 9999 established — for the local time after the offset is applied, not for the UTC fields (TAB-DATEVAL); the binary timestamp layout uses the codecs Ion 1.0 prescribes on both sides — VarInt offset, VarUInt calendar fields, decimal fraction with VarInt exponent and Int coefficient (TAB-CODEC, timestamp obligations) — and timestampLen measures exactly the operands appendTimestamp appends, with the same codec, every unmeasured operand being a one-byte VarUInt by its interval (TAB-LENPAY, timestamp pair); calendar fields and fraction digits are narrowed only within range (NUM-NARROW, timestamp obligations) and the fraction rounding never extracts 64 bits from a larger big.Int (NUM-BIG); every index and slice bound the timestamp parser applies to its input string is inside the string (NUM-INDEX, NUM-SLICE, timestamp.go obligations — found F30: ParseTimestamp of 2000-01-01T00:00:00.123 panicked); the limits of the data model are drawn where the specification draws them — offset hours below 24, minutes below 60, years 1..9999, nine fraction digits kept, calendar fields at most 10000 (TAB-BOUNDS, timestamp obligations).",
+		Decided:    "Calendar validation compares every field it hands to time.Date (which normalises month 13, day 32, hour 24, minute/second 60 instead of rejecting them) with the matching accessor of the result before every success exit, and the time value each decoded timestamp is built from has 1 <= Year() <= 9999 established — for the local time after the offset is applied, not for the UTC fields (TAB-DATEVAL); the binary timestamp layout uses the codecs Ion 1.0 prescribes on both sides — VarInt offset, VarUInt calendar fields, decimal fraction with VarInt exponent and Int coefficient (TAB-CODEC, timestamp obligations) — and timestampLen measures exactly the operands appendTimestamp appends, with the same codec, every unmeasured operand being a one-byte VarUInt by its interval (TAB-LENPAY, timestamp pair); calendar fields and fraction digits are narrowed only within range (NUM-NARROW, timestamp obligations) and the fraction rounding never extracts 64 bits from a larger big.Int (NUM-BIG); every index and slice bound the timestamp parser applies to its input string is inside the string (NUM-INDEX, NUM-SLICE, timestamp.go obligations — found F30: ParseTimestamp of 2000-01-01T00:00:00.123 panicked); the limits of the data model are drawn where the specification draws them — offset hours below 24, minutes below 60, years 1..9999, nine fraction digits kept, calendar fields at most 10000 (TAB-BOUNDS, timestamp obligations). No byte buffer kept in a field of a reader or writer is handed out (OWN-SCRATCHOUT: zero such buffers today; the rule constrains any that is introduced).",
 		Necessary:  "Binary minute 60 was normalised into the next hour (F18, fixed); binary year 0, 10000, 2^31 and a wrapped 2^64-100 were accepted (fixed: 27f5dbd); a fraction coefficient measured with another codec than it is written with mis-frames every following byte (seeded C01-1/C04-1/C15-3); a 21-digit fraction decoded through Int64() of a 70-bit number (F19, fixed).",
 		NotDecided: "text formatting (layout selection, trailing zeros), staged text parsing by string position, offset arithmetic and its 24h bound, rounding direction of fractions",
-		Technique:  "SSA branch-fact dominance (equalities with time accessors, helper-predicate facts) + " + numTech + "; codec-family tables compared with Ion 1.0",
+		Technique:  "SSA branch-fact dominance (equalities with time accessors, helper-predicate facts) + " + numTech + "; codec-family tables compared with Ion 1.0" + "; escape walk of slices derived from receiver buffer fields, through helpers, append-style callees and call sites",
 		DesignRef:  "DESIGN.md §3.3, §3.4, §4 C15, §0.7",
 		Rules: []Rule{
 			rDateVal, only(rCodec, 14, anyOf(funcHas("imestamp", "readNsecs", "readDecimal"))), only(rLenPay, 18, funcHas("imestamp")),
 			only(rNarrow, 12, anyOf(funcHas("imestamp", "readNsecs", "readDecimal"), posHas("ion/timestamp.go"))), only(rBig, 1, funcHas("round")), only(rIndex, 20, posHas("ion/timestamp.go")), only(rSlice, 8, posHas("ion/timestamp.go")), only(rBounds, 7, funcHas("imestamp", "computeTimezoneKind", "isIonYear")),
+			rScrOut,
 		},
 	},
 	"C16": {
@@ -395,10 +407,10 @@ var registry = map[string]*Property{
 		Rules:      []Rule{rOrdSortMap, rOwnNondet, only(rNarrow, 1, posHas("ion/marshal.go")), rOpaque, rKind, only(rTextAuth, 1, posHas("ion/marshal.go", "ion/unmarshal.go")), only(rAppAlias, 2, posHas("ion/fields.go", "ion/marshal.go", "ion/unmarshal.go")), rExactFst, rParamUse, rEncPure, rEmptyCp, rAddr},
 	},
 	"C17": {
-		Decided:    "In unmarshal.go: token text and the other nil-if-unknown pointer fields are tested before use (NIL-FIELD); accessor results are dereferenced only under the non-null precondition (NIL-ACC, NIL-ARG); Decoder.Decode/DecodeTo return the reader's error or ErrNoInput, never nil, when Next() reports no value (ORD-NOINPUT); every reflective numeric store is dominated by the matching Overflow test on the same value and operand, every signed-to-unsigned conversion by a sign test, every big.Int extraction by IsUint64 (NUM-REFLECT, NUM-NARROW, NUM-BIG in unmarshal.go); a reflective Set under a type-identity test stores a value of exactly that type (TAB-REFLECTSET); every index in unmarshal.go is in bounds (NUM-INDEX, unmarshal obligations). A case-insensitive field match never ends the field search before every candidate was compared exactly (ORD-EXACTFIRST); under each IntSize() case the accessor reached is wide enough (TAB-INTSIZE); no typed accessor answers successfully before the value's type was read (TAB-ACCTYPE). No slice is copied by appending it to a nil slice (NIL-EMPTYCOPY). reflect.Value.Addr is called only under CanAddr() or on a value addressable by construction (NIL-ADDR).",
+		Decided:    "In unmarshal.go: token text and the other nil-if-unknown pointer fields are tested before use (NIL-FIELD); accessor results are dereferenced only under the non-null precondition (NIL-ACC, NIL-ARG); Decoder.Decode/DecodeTo return the reader's error or ErrNoInput, never nil, when Next() reports no value (ORD-NOINPUT); every reflective numeric store is dominated by the matching Overflow test on the same value and operand, every signed-to-unsigned conversion by a sign test, every big.Int extraction by IsUint64 (NUM-REFLECT, NUM-NARROW, NUM-BIG in unmarshal.go); a reflective Set under a type-identity test stores a value of exactly that type (TAB-REFLECTSET); every index in unmarshal.go is in bounds (NUM-INDEX, unmarshal obligations). A case-insensitive field match never ends the field search before every candidate was compared exactly (ORD-EXACTFIRST); under each IntSize() case the accessor reached is wide enough (TAB-INTSIZE); no typed accessor answers successfully before the value's type was read (TAB-ACCTYPE). No slice is copied by appending it to a nil slice (NIL-EMPTYCOPY). reflect.Value.Addr is called only under CanAddr() or on a value addressable by construction (NIL-ADDR). Index paths of promoted fields are built on fresh storage (OWN-APPENDALIAS, fields.go): a shared backing array makes sibling fields of a deeply embedded struct decode into one another.",
 		Necessary:  "A symbol without text ($0) or a typed null reaching an unguarded dereference panics instead of returning an error (F9, fixed); a Decoder that returns nil at the end of the stream never reports ErrNoInput.",
 		NotDecided: "the value × target conversion table, the reader's position after a failed decode",
-		Technique:  "SSA must-dataflow of nil facts; path search to exits; branch-fact dominance of Overflow*/IsUint64 tests; " + numTech + "; loop-structure check around EqualFold; enum value-set dataflow of IntSize(); path search for a type read before successful exits of accessors" + "; shape check of append calls with a nil base" + "; branch-fact guard of reflect.Value.Addr",
+		Technique:  "SSA must-dataflow of nil facts; path search to exits; branch-fact dominance of Overflow*/IsUint64 tests; " + numTech + "; loop-structure check around EqualFold; enum value-set dataflow of IntSize(); path search for a type read before successful exits of accessors" + "; shape check of append calls with a nil base" + "; branch-fact guard of reflect.Value.Addr" + "; append-aliasing check of index paths",
 		DesignRef:  "DESIGN.md §3.2, §3.5, §4 C17",
 		Rules: []Rule{
 			{"NIL-FIELD", rules.NilField(rules.ScopeUnmarshal, 2)}, {"NIL-ACC", rules.NilAcc(rules.ScopeUnmarshal, 10)}, {"NIL-ARG", rules.NilArg(rules.ScopeUnmarshal, 0)}, rOrdNoInput,
@@ -406,24 +418,26 @@ var registry = map[string]*Property{
 			rExactFst, rIntSize, rAccType,
 			rEmptyCp,
 			rAddr,
+			only(rAppAlias, 2, posHas("ion/fields.go", "ion/unmarshal.go")),
 		},
 	},
 	"C18": {
-		Decided:    "There is no shared mutable state: shared tables, local tables and the catalog are written only while being constructed (OWN-IMMUT); package-level variables and everything reachable from them are written only during package initialisation (OWN-GLOBAL); no method of a shared type hands out an alias of its internal slice or map (OWN-ESCAPE); nothing on the output path consults a schedule- or time-dependent source (OWN-NONDET). No function of marshal.go reaches a mutating reflect call, so concurrent Marshal calls on one value only read it (OWN-ENCPURE).",
+		Decided:    "There is no shared mutable state: shared tables, local tables and the catalog are written only while being constructed (OWN-IMMUT); package-level variables and everything reachable from them are written only during package initialisation (OWN-GLOBAL); no method of a shared type hands out an alias of its internal slice or map (OWN-ESCAPE); nothing on the output path consults a schedule- or time-dependent source (OWN-NONDET). No function of marshal.go reaches a mutating reflect call, so concurrent Marshal calls on one value only read it (OWN-ENCPURE). Every big.Int method that writes its receiver is called on a big.Int allocated in the same function, so no operation changes an operand or a value handed out earlier (OWN-BIGFRESH). A value goes back into a sync.Pool only after a Reset on every path, error exits included (ORD-POOLRESET: no pool today; the rule constrains any that is introduced).",
 		Necessary:  "With nothing written after construction every access to the shared objects is a read, and concurrent reads do not race (Go memory model); any write found by these rules is a write to an object two goroutines can hold.",
 		NotDecided: "thread-safety of reflect, math/big, fmt, strconv internals (assumed); user-supplied io.Reader/io.Writer/Marshaler implementations",
-		Technique:  "SSA store/alias roots + call-graph effect summaries; copy-source tracing for Build" + "; call-graph reachability of mutating reflect methods from marshal.go",
+		Technique:  "SSA store/alias roots + call-graph effect summaries; copy-source tracing for Build" + "; call-graph reachability of mutating reflect methods from marshal.go" + "; freshness check of the receivers of mutating big.Int methods" + "; must-precede of Reset before sync.Pool.Put on every exit",
 		DesignRef:  "DESIGN.md §3.6, §4 C18",
-		Rules:      []Rule{rOwnImmut, rOwnGlobal, rOwnEscape, rOwnNondet, rBuild, rEncPure},
+		Rules:      []Rule{rOwnImmut, rOwnGlobal, rOwnEscape, rOwnNondet, rBuild, rEncPure, rBigFresh, rPoolRst},
 	},
 	"C19": {
-		Decided:    "In the reader and writer files of package ion no error of a module function, ion interface method or I/O primitive is discarded (ERR-DROP) and no path from a non-nil error test reaches an exit with the error neither consumed nor replaced by a definitely non-nil error (ERR-SWAP); a failed write is sticky in every Writer method (ERR-STICKY-W); a failed read is made sticky before a Reader method returns it (ERR-STICKY-R); the caller's io.Reader is only wrapped in a bufio.Reader and that is used only through complete-or-error primitives (ReadByte, Peek, Discard, io.ReadFull), so no result depends on how a Read was chunked (OWN-INPUT).",
+		Decided:    "In the reader and writer files of package ion no error of a module function, ion interface method or I/O primitive is discarded (ERR-DROP) and no path from a non-nil error test reaches an exit with the error neither consumed nor replaced by a definitely non-nil error (ERR-SWAP); a failed write is sticky in every Writer method (ERR-STICKY-W); a failed read is made sticky before a Reader method returns it (ERR-STICKY-R); the caller's io.Reader is only wrapped in a bufio.Reader and that is used only through complete-or-error primitives (ReadByte, Peek, Discard, io.ReadFull), so no result depends on how a Read was chunked (OWN-INPUT). The end-of-input sentinel -1 is returned with a nil error only on the edge where the source's error is io.EOF (ERR-EOFONLY).",
 		Necessary:  "bufio forgets an error once it has returned it, so an I/O error that is dropped, swapped for nil or returned without being stored looks like a clean end of data (F24, F26, fixed) or lets a later Finish return nil (F2, F3, fixed).",
 		NotDecided: "equality of results across chunkings (follows from bufio's contract, trusted), the prefix property of accepted bytes",
-		Technique:  ssaTech + "; who-may-call / escape analysis of the input primitives (OWN-INPUT)",
+		Technique:  ssaTech + "; who-may-call / escape analysis of the input primitives (OWN-INPUT)" + "; branch-fact check of the sentinel exits",
 		DesignRef:  "DESIGN.md §3.1, §4 C19",
 		Rules: []Rule{
 			{"ERR-DROP", rules.ErrDrop(rules.ScopeIO, nil, 300)}, {"ERR-SWAP", rules.ErrSwap(rules.ScopeIO, rules.SwapSuppReader, 200)}, rStickyW, rStickyR, rOwnInput,
+			rEOFOnly,
 		},
 	},
 	"C20": {
@@ -479,6 +493,12 @@ var devRules = map[string]Rule{
 	"ORD-OPENSTAR":    rOpenStar,
 	"TAB-SURROGATE":   rSurr,
 	"NIL-ADDR":        rAddr,
+	"OWN-SCRATCHOUT":  rScrOut,
+	"ERR-EOFONLY":     rEOFOnly,
+	"TAB-READVIA":     rReadVia,
+	"NUM-BIGFIT":      rBigFit,
+	"ORD-POOLRESET":   rPoolRst,
+	"OWN-BIGFRESH":    rBigFresh,
 	"NUM-NARROW-TU":   {"NUM-NARROW", rules.NumNarrow(rules.Scope{Name: "textutils.go", Pkgs: []string{"ion"}, Files: []string{"textutils.go"}}, nil, 0)},
 	"NUM-NARROW":      {"NUM-NARROW", rules.NumNarrow(rules.ScopeNum, rules.NarrowResiduals, 0)},
 	"NUM-SHIFT":       {"NUM-SHIFT", rules.NumShift(rules.ScopeNum, rules.ShiftResiduals, 0)},
